@@ -16,7 +16,7 @@ MsgAll == {"plain", "leadspace", "slashes", "blockcm", "placeholders", "escquote
            "validref", "validref0", "validrefmax", "bracketnoref", "unicodefirst"}
 MsgFew == {"plain", "validref", "leadspace", "unicodefirst"}
 LayoutsAll == {"tight", "space", "newline", "crlf", "blockcomment", "linecomment", "tabs"}
-ContextsAll == {"linestart", "indent", "brace", "arrow", "return", "letunderscore", "afterstring", "aftermultibyte", "break", "tabindent", "afterstmt"}
+ContextsAll == {"linestart", "indent", "brace", "arrow", "return", "letunderscore", "afterstring", "aftermultibyte", "break", "tabindent", "afterstmt", "afterurl"}
 DirsAll == {"none", "ignore", "nokvp"}
 BothModes == {"structured", "unstructured"}
 =============================================================================
